@@ -91,6 +91,30 @@ def eval_levels(args):
 _LV = {}
 
 
+# QName-typed fields: the value is the expanded name under the declarations in scope AT THE SELECTED ELEMENT, whatever its children declare
+def qname_schema(ver, kind):
+    return _cls(ver)(f'''<xs:schema {XS}><xs:element name="r"><xs:complexType><xs:sequence>
+  <xs:element name="k" minOccurs="0" maxOccurs="unbounded"><xs:complexType><xs:sequence><xs:element name="c" minOccurs="0" maxOccurs="unbounded"/></xs:sequence><xs:attribute name="q" type="xs:QName"/></xs:complexType></xs:element>
+  <xs:element name="f" minOccurs="0" maxOccurs="unbounded"><xs:complexType><xs:sequence><xs:element name="c" minOccurs="0" maxOccurs="unbounded"/></xs:sequence><xs:attribute name="q" type="xs:QName"/></xs:complexType></xs:element>
+ </xs:sequence></xs:complexType><xs:{kind} name="K"><xs:selector xpath="k"/><xs:field xpath="@q"/></xs:{kind}>
+ <xs:keyref name="R" refer="K"><xs:selector xpath="f"/><xs:field xpath="@q"/></xs:keyref></xs:element></xs:schema>''')
+
+
+def eval_qnames(args):
+    ver, kind, krows, frows = args
+    s = _LV.get((ver, kind, 'q')) or _LV.setdefault((ver, kind, 'q'), qname_schema(ver, kind))
+    NSS = {'A': 'urn:a', 'B': 'urn:b'}
+    def el(tag, row):
+        own, child, local = row          # own: binding of p on the element itself (None = inherited urn:a); child: binding redeclared by its last child
+        return f'<{tag}' + (f' xmlns:p="{NSS[own]}"' if own else '') + f' q="p:{local}">' + (f'<c xmlns:p="{NSS[child]}"/>' if child else '') + f'</{tag}>'
+    val = lambda row: (NSS[row[0] or 'A'], row[2])
+    doc = '<r xmlns:p="urn:a">' + ''.join(el('k', r_) for r_ in krows) + ''.join(el('f', r_) for r_ in frows) + '</r>'
+    exp = key_table_ok(kind, [(val(r_),) for r_ in krows], [(val(r_),) for r_ in frows])
+    try: got = s.is_valid(doc)
+    except Exception as e: got = f'EXC {type(e).__name__}: {e}'
+    return None if got == exp else dict(doc=doc, ver=ver, kind=kind, got=got, exp=exp)
+
+
 # the keyref on a REPEATED element g, the key on its optional child h: every g has its own scope; a g without h has an empty table
 def nested_schema(ver, kind):
     return _cls(ver)(f'''<xs:schema {XS}><xs:element name="r"><xs:complexType><xs:sequence><xs:element name="g" maxOccurs="unbounded"><xs:complexType><xs:sequence>
@@ -163,6 +187,13 @@ def run(tier, seed, open_findings):
         lf.append(dict(case=dict(levels=True, ver=r['ver'], kind=r['kind'], doc=r['doc']), observed=dict(valid=r['got']), required=dict(valid=r['exp'])))
     out.append(result('C08.refer_across_levels', f'{len(ljobs)} documents: keyref on r referring to a key / unique declared on the repeated child g; 0-2 g elements with <= 2 rows, <= 2 references over {{absent, 1, 2}}',
                       len(ljobs), lf, exhaustive=lex, known=lknown, samples=[dict(doc='<r><g><k v="1"/></g><f v="1"/></r>')]))
+    qrows = [(own, child, local) for own in (None, 'B') for child in (None, 'A', 'B') for local in ('x', 'y')]
+    qjobs = [(ver, kind, ks, fs) for ver in ('1.0', '1.1') for kind in ('key', 'unique') for nk in (1, 2) for ks in itertools.product(qrows, repeat=nk) for nf in (0, 1) for fs in itertools.product(qrows[::2], repeat=nf)]
+    qjobs, qex = part(qjobs, tier, seed, 4)
+    qres = pmap(eval_qnames, qjobs)
+    out.append(result('C08.qname_fields', f'{len(qjobs)} documents: key / unique / keyref over an xs:QName attribute; the prefix is bound on the root, rebound on the selected element and / or by its last child (which must not matter)',
+                      len(qjobs), [dict(case=dict(qnames=True, ver=r['ver'], kind=r['kind'], doc=r['doc'], exp=r['exp']), observed=dict(valid=r['got']), required=dict(valid=r['exp'])) for r in qres if r],
+                      exhaustive=qex, samples=[dict(doc='<r xmlns:p="urn:a"><k q="p:x"><c xmlns:p="urn:b"/></k><k q="p:x"/></r>')]))
     one = [(keys, refs) for keys in [None, (), (1,), (2,), (1, 2)] for refs in [(), (1,), (2,), (None,), (1, 2)]]
     njobs = [(ver, kind, gs) for ver in ('1.0', '1.1') for kind in ('key', 'unique') for ng in (1, 2) for gs in itertools.product(one, repeat=ng)]
     njobs, nex = part(njobs, tier, seed, 3)
@@ -183,6 +214,9 @@ def run(tier, seed, open_findings):
 
 
 def replay(check_name, case):
+    if case.get('qnames'):
+        sch = qname_schema(case['ver'], case['kind']); got = sch.is_valid(case['doc'])
+        return dict(ok=got == case['exp'], observed=dict(valid=got), required=dict(valid=case['exp']))
     if case.get('nested'):
         import re
         gs = []
